@@ -38,6 +38,32 @@ func slotKinds() []slotKind {
 		{"accordion-text", func(c string) string {
 			return "<mj-accordion><mj-accordion-element><mj-accordion-title>title</mj-accordion-title><mj-accordion-text>" + c + "</mj-accordion-text></mj-accordion-element></mj-accordion>"
 		}, false},
+		// the same slots where a renderer might skip them: a social element without a known network (no icon), the first of two
+		// titles / texts of an accordion element, raw content between the children of navbar / social / accordion / carousel
+		{"social-element-no-icon", func(c string) string {
+			return `<mj-social><mj-social-element name="nosuchnetwork" href="http://x/f">` + c + "</mj-social-element></mj-social>"
+		}, false},
+		{"social-element-vertical", func(c string) string {
+			return `<mj-social mode="vertical"><mj-social-element name="facebook" href="http://x/f">` + c + "</mj-social-element></mj-social>"
+		}, false},
+		{"accordion-first-of-two-titles", func(c string) string {
+			return "<mj-accordion><mj-accordion-element><mj-accordion-title>" + c + "</mj-accordion-title><mj-accordion-title>second</mj-accordion-title><mj-accordion-text>body</mj-accordion-text></mj-accordion-element></mj-accordion>"
+		}, false},
+		{"accordion-first-of-two-texts", func(c string) string {
+			return "<mj-accordion><mj-accordion-element><mj-accordion-title>title</mj-accordion-title><mj-accordion-text>" + c + "</mj-accordion-text><mj-accordion-text>second</mj-accordion-text></mj-accordion-element></mj-accordion>"
+		}, false},
+		{"raw-in-navbar", func(c string) string {
+			return `<mj-navbar><mj-navbar-link href="/a">a</mj-navbar-link><mj-raw><div>` + c + `</div></mj-raw><mj-navbar-link href="/b">b</mj-navbar-link></mj-navbar>`
+		}, false},
+		{"raw-in-social", func(c string) string {
+			return `<mj-social><mj-social-element name="facebook">f</mj-social-element><mj-raw><div>` + c + `</div></mj-raw></mj-social>`
+		}, false},
+		{"raw-in-accordion", func(c string) string {
+			return `<mj-accordion><mj-raw><div>` + c + `</div></mj-raw><mj-accordion-element><mj-accordion-title>t</mj-accordion-title></mj-accordion-element></mj-accordion>`
+		}, false},
+		{"raw-in-accordion-element", func(c string) string {
+			return `<mj-accordion><mj-accordion-element><mj-accordion-title>t</mj-accordion-title><mj-raw><div>` + c + `</div></mj-raw><mj-accordion-text>x</mj-accordion-text></mj-accordion-element></mj-accordion>`
+		}, false},
 		{"title", func(c string) string { return "<mj-title>" + c + "</mj-title>" }, true},
 		{"preview", func(c string) string { return "<mj-preview>" + c + "</mj-preview>" }, true},
 	}
@@ -124,7 +150,7 @@ func payloads() []payload {
 var sentRe = regexp.MustCompile(`S(\d+)E`)
 
 func runC04(res *Result, tier string, seed int64, replay string) {
-	res.Rule = "(1) content matrix, EXHAUSTIVE: 10 content slots (text, button, table cell, raw, navbar link, social element, accordion title/text, title, preview) × 9 placements (column, second column, group, hero, wrapper, middle of three sections, after a chaining section, background-image section, full-width section) × 24 payloads (plain, inline / nested markup, every compact arrangement of text runs and inline elements (element first, lone text run behind / between elements, elements only), link with &amp;, escaped markup &lt;b&gt;, numeric and hex character references for '<', &amp;, HTML named entities, quotes, <br/>, non-ASCII letters whose case folding changes their byte length, character data whose decoded value looks like a character reference), unique sentinels in reading order; + size payloads in every slot (one unbroken 70 KB token, 70 KB of white space or line breaks, 300 KB of words, 72 KB of CJK text, a 96 KB data URI inside markup); the Lean oracle on the real bytes says which sentinels standard clients see (in order) and which sit only in Outlook blocks; escaped markup must not come out as markup; a document that loses content must return an error. (2) the layout documents of C02/C03 with a sentinel in every slot. Non-trivial = every cell; distinct by (slot, placement, payload)"
+	res.Rule = "(1) content matrix, EXHAUSTIVE: 18 content slots (text, button, table cell, raw, navbar link, social element — horizontal, vertical, without a known network —, accordion title / text — also the first of two —, raw content between the children of navbar / social / accordion / accordion element (where MJML allows mj-raw), title, preview) × 9 placements (column, second column, group, hero, wrapper, middle of three sections, after a chaining section, background-image section, full-width section) × 24 payloads (plain, inline / nested markup, every compact arrangement of text runs and inline elements (element first, lone text run behind / between elements, elements only), link with &amp;, escaped markup &lt;b&gt;, numeric and hex character references for '<', &amp;, HTML named entities, quotes, <br/>, non-ASCII letters whose case folding changes their byte length, character data whose decoded value looks like a character reference), unique sentinels in reading order; + size payloads in every slot (one unbroken 70 KB token, 70 KB of white space or line breaks, 300 KB of words, 72 KB of CJK text, a 96 KB data URI inside markup); the Lean oracle on the real bytes says which sentinels standard clients see (in order) and which sit only in Outlook blocks; escaped markup must not come out as markup; a document that loses content must return an error. (2) the layout documents of C02/C03 with a sentinel in every slot. Non-trivial = every cell; distinct by (slot, placement, payload)"
 	drv, err := startDriverPool(12)
 	if err != nil {
 		res.Disagree(Violation{Sig: "driver-missing", What: err.Error()})
